@@ -237,3 +237,5 @@ func rewriteTerm(t *Term, info *types.Info, sk *Skeleton) *Term {
 
 var _ = token.ADD
 var _ = fmt.Sprintf
+
+func constantInt(v int64) constant.Value { return constant.MakeInt64(v) }
